@@ -484,6 +484,12 @@ class JordanCurve:
             node = pairs[i][1]
             if abs(node) < 1e-6 or abs(node - 1) < 1e-6:
                 pairs.pop(i)
+            elif (
+                i > 0
+                and pairs[i - 1][0] == pairs[i][0]
+                and abs(node - pairs[i - 1][1]) < 1e-6
+            ):
+                pairs.pop(i)  # Repeated node in the same segment
             else:
                 i += 1
         shift = 0
